@@ -81,7 +81,7 @@ def _tie(ctx, name, args):
 def ties(ctx):
     s = str(ctx.seed)
     out = []
-    out.append(_tie(ctx, 'dtx-runs', ['tie', s, '90' if ctx.quick else '1500', '0' if ctx.quick else '1']))
+    out.append(_tie(ctx, 'dtx-runs', ['tie', s, '70' if ctx.quick else '1200', '0' if ctx.quick else '1']))
     # deterministic scenarios through the same per-call comparison
     stride = 9 if ctx.quick else 1
     first = ctx.seed % stride
@@ -197,11 +197,11 @@ def search(ctx):
     _run_search(h, ['scen', 'regime-switch', '0', '16', '1', '0'], env, wit, stats)
     _run_search(h, ['scen', 'silk-bust', '0', '1', '1', '0'], env, wit, stats)
     # 2. digital silence at complexity >= 7 / Fs >= 16 kHz must reach DTX within the stated window (real detector)
-    stride = 3 if q else 1
+    stride = 6 if q else 1
     _run_search(h, ['scen', 'silence-grid', str(ctx.seed % stride), '648', str(stride), '0'], env, wit, stats)
     # 3. generated runs (plain build for volume, sanitizer build for memory safety of the DTX paths incl. decoder)
-    _run_search(h, ['search', str(ctx.seed), '500' if q else '6000', '0' if q else '1'], env, wit, stats)
-    _run_search(hs, ['search', str(ctx.seed + 1000), '60' if q else '600', '0'], env, wit, stats)
+    _run_search(h, ['search', str(ctx.seed), '300' if q else '3500', '0' if q else '1'], env, wit, stats)
+    _run_search(hs, ['search', str(ctx.seed + 1000), '40' if q else '600', '0'], env, wit, stats)
     # one witness per (clause, input)
     seen, uniq = set(), []
     for w in wit:
